@@ -1,13 +1,18 @@
 #!/bin/bash
-# tools/run_seed.sh <patch.diff> <Cxx> [<Cyy> ...]  : apply a patch to /repo, run the named checks, undo.
-P=$(readlink -f "$1"); shift
-cd /repo || exit 2
-if [ -n "$(git status --porcelain --untracked-files=no)" ]; then echo "/repo not clean"; exit 2; fi
-git apply "$P" 2>/dev/null || git apply -3 "$P" 2>/dev/null || { echo "PATCH DOES NOT APPLY: $P"; git reset -q --hard HEAD; exit 3; }
+# tools/run_seed.sh <patch> <Cxx...> : apply a seeded patch to a scratch worktree of /repo (never to /repo itself), run the checks
+# against it, print a summary per check.  SEED_LINES = number of report lines to show.
+PATCH=$(readlink -f $1); shift
+WT=${VERIF_DEV_WT:-/tmp/verif-dev-wt}
+[ -d $WT ] || git -C /repo worktree add --detach $WT HEAD -q
+git -C $WT reset -q --hard HEAD; git -C $WT clean -fdq src
+git -C $WT apply $PATCH || git -C $WT apply -3 $PATCH || { echo "patch does not apply"; exit 2; }
 cd /verif
+EV=$(mktemp -d /tmp/dev-ev-XXXX)
 for c in "$@"; do
-  out=$(./check $c 2>&1); rc=$?
-  echo "[$c rc=$rc] $(echo "$out" | grep -c '^VIOLATION') violations; $(echo "$out" | tail -1)"
-  echo "$out" | grep -A3 "^--- " | grep -v "^--$" | head -${SEED_LINES:-12}
+  out=$(SQLGREP_REPO=$WT VERIF_EVIDENCE_DIR=$EV VERIF_KEEP_FACTS=40 ./check $c 2>&1); rc=$?
+  nv=$(echo "$out" | grep -c "^--- ")
+  echo "[$c rc=$rc] $nv violations; $(echo "$out" | tail -1)"
+  echo "$out" | grep -A4 "^--- \|^ERROR" | head -${SEED_LINES:-0}
 done
-git -C /repo reset -q --hard HEAD
+rm -rf $EV
+git -C $WT reset -q --hard HEAD
